@@ -138,7 +138,12 @@ def findall(lst: list[dict], key: str, value: Any) -> list[dict]:
         assert len(layers) == 2
     """
     key = key.lower()
-    return [item for item in lst if key in item and item[key] and item[key] in value]
+    if isinstance(value, (list, tuple, set, frozenset)):
+        values = value
+    else:
+        # a single value is matched by equality (a string is not a collection of substrings)
+        values = (value,)
+    return [item for item in lst if key in item and item[key] in values]
 
 
 def findunique(lst, key):
